@@ -14,5 +14,6 @@ CONSTANTS
   LockLocals = TRUE
   GCachePrefilled = TRUE
   FillGlobalCachesUnderLock = FALSE
+  SharedScratch = FALSE
 INVARIANTS NoRace TextEqual Mutex
 CHECK_DEADLOCK FALSE
